@@ -13,8 +13,10 @@
      card L n             exactly n keys are present
      conforms cap L o r   what the statement of C07 demands of the result r of
                           call o when the past is summarised by L
-   Only statements here; each is closed by [exact] of a lemma of C07_Proofs.v /
-   C07_DllProofs.v and followed by Print Assumptions. *)
+   Only statements here; each is closed by [exact] of a lemma of C07_Proofs.v
+   and followed by Print Assumptions.  The pointer-level theorems (the heap
+   code of C07_Dll.v refines Layer 1, hence all of the below hold of it) are in
+   C07_PropsDll.v. *)
 
 From Gogu Require Import Base C07_Model C07_Proofs C07_Dll C07_DllProofs.
 Local Open Scope Z_scope.
